@@ -29,6 +29,7 @@ package lucene
 // Injected into the root package with `go test -overlay`; never written to /repo.
 
 import (
+	"bytes"
 	"encoding/json"
 	"fmt"
 	"math/rand"
@@ -39,7 +40,9 @@ import (
 	"strconv"
 	"strings"
 	"sync"
+	"sync/atomic"
 	"testing"
+	"time"
 
 	"github.com/grindlemire/go-lucene/pkg/lucene/expr"
 )
@@ -73,7 +76,12 @@ func vc16pWriteReport(rep *vc16pReport) {
 	if rep.Samples == nil {
 		rep.Samples = []string{}
 	}
-	b, err := json.MarshalIndent(rep, "", " ")
+	var buf bytes.Buffer
+	enc := json.NewEncoder(&buf)
+	enc.SetEscapeHTML(false)
+	enc.SetIndent("", " ")
+	err := enc.Encode(rep)
+	b := buf.Bytes()
 	if err != nil {
 		b = []byte(fmt.Sprintf(`{"property":"C16P","failure_count":1,"by_category":{"harness-error":1},"failures":[%q]}`, "[harness-error] cannot encode report: "+err.Error()))
 	}
@@ -461,6 +469,53 @@ func vc16pEnumerate(vocab []vc16pTok, minLen, maxLen int, emit func([]vc16pTok))
 	rec()
 }
 
+// ---------------------------------------------------------------------------------------------
+// watchdog: a library call that does not come back would otherwise hang the whole test binary.
+// The stuck goroutine cannot be stopped, so the watchdog writes a report of its own, prints the
+// failure and ends the process with a non-zero status.
+
+type vc16pWatch struct {
+	cur   []atomic.Pointer[string]
+	since []atomic.Int64
+	stop  chan struct{}
+}
+
+func vc16pStartWatch(n int, rep *vc16pReport) *vc16pWatch {
+	w := &vc16pWatch{cur: make([]atomic.Pointer[string], n), since: make([]atomic.Int64, n), stop: make(chan struct{})}
+	const limit = 10 * time.Second
+	go func() {
+		tk := time.NewTicker(250 * time.Millisecond)
+		defer tk.Stop()
+		for {
+			select {
+			case <-w.stop:
+				return
+			case <-tk.C:
+				now := time.Now().UnixNano()
+				for i := range w.cur {
+					p := w.cur[i].Load()
+					if p == nil || now-w.since[i].Load() < int64(limit) {
+						continue
+					}
+					msg := fmt.Sprintf("[hang] %s : the library must return on every input, a call on this one is still running after %v", strconv.Quote(*p), limit)
+					vc16pWriteReport(&vc16pReport{Property: rep.Property, Tier: rep.Tier, Seed: rep.Seed, Bound: "aborted by the watchdog: a library call did not return",
+						FailCount: 1, ByCategory: map[string]int{"hang": 1}, Failures: []string{msg}})
+					fmt.Printf("--- FAIL: TestVerifStandin_C16P\n    C16P violated: %s\nFAIL\n", msg)
+					os.Exit(1)
+				}
+			}
+		}
+	}()
+	return w
+}
+
+func (w *vc16pWatch) enter(i int, in *string) {
+	w.cur[i].Store(in)
+	w.since[i].Store(time.Now().UnixNano())
+}
+
+func (w *vc16pWatch) leave(i int) { w.cur[i].Store(nil) }
+
 func TestVerifStandin_C16P(t *testing.T) {
 	tier := os.Getenv("VERIF_TIER")
 	if tier != "thorough" {
@@ -499,6 +554,7 @@ func TestVerifStandin_C16P(t *testing.T) {
 	}
 	results := make([]res, workers)
 	bases := make(chan []vc16pBase, 4*workers)
+	watch := vc16pStartWatch(workers, rep)
 	var wg sync.WaitGroup
 	for w := 0; w < workers; w++ {
 		results[w].agg = vc16pNewAgg()
@@ -512,6 +568,7 @@ func TestVerifStandin_C16P(t *testing.T) {
 					// diagnostic only (not the oracle): does the base parse without the offending piece?
 					baseOK := false
 					bs := vc16pJoin(base)
+					watch.enter(w, &bs)
 					for _, cfg := range vc16pCfgs {
 						if e, err, pan, _ := vc16pParse(bs, cfg.opts); pan == nil && err == nil && e != nil {
 							baseOK = true
@@ -522,7 +579,12 @@ func TestVerifStandin_C16P(t *testing.T) {
 						if baseOK {
 							r.nontrivial++
 						}
+						watch.enter(w, &c.in)
 						fs := vc16pCheck(c)
+						watch.leave(w)
+						if len(fs) == 0 {
+							return
+						}
 						seen := map[string]bool{}
 						for _, f := range fs {
 							n := 1
@@ -602,6 +664,7 @@ func TestVerifStandin_C16P(t *testing.T) {
 	}
 	close(bases)
 	wg.Wait()
+	close(watch.stop)
 
 	total := vc16pNewAgg()
 	for w := range results {
